@@ -202,6 +202,14 @@ static void history_case(const pk_t *P, size_t pi, rng_t *r, bool sorted) {
     for (int t = 0; t < nops && ok; t++) {
         uint32_t v = rng_chance(r, 2, 3) ? pool[rng_below(r, np)] : gen_pvalue(r, P);
         int op = (int)rng_below(r, sorted ? 6 : 3);
+        if (sorted && op >= 2 && op <= 4 && P->bits != 8 && P->bits != 16 && P->bits != 32 && rng_chance(r, 1, 5)) {
+            /* a query key outside the element domain (the value type is wider than the packed width): its low bits equal
+             * a stored or pooled element, but no element equals it */
+            uint32_t vbits = P->bits <= 8 ? 8 : P->bits <= 16 ? 16 : 32;
+            uint32_t hi = 1 + (uint32_t)rng_below(r, (1ull << (vbits - (uint32_t)P->bits)) - 1);
+            v = (len && rng_chance(r, 1, 2) ? m[rng_below(r, len)] : v) | (hi << P->bits);
+            STAT_INC("c09_queries_with_keys_outside_the_element_domain");
+        }
         snprintf(g_sub, sizeof g_sub, "%s cap=%u len=%u step=%d", P->name, cap, len, t);
         if (sorted) {
             switch (op) {
@@ -220,8 +228,8 @@ static void history_case(const pk_t *P, size_t pi, rng_t *r, bool sorted) {
                 ok = compare_all(P, gb.p, m, len, "InsertSorted", t);
                 STAT_INC("c09_sorted_inserts");
                 break;
-            case 2: { /* delete member */
-                if (!len) break;
+            case 2: { /* delete member (also on an empty array: nothing to delete, the count stays 0) */
+                if (!len) STAT_INC("c09_delete_member_on_empty_array");
                 g_ctx = "DeleteMember";
                 bool lib = P->delmember(gb.p, len, v);
                 uint32_t pos = 0;
